@@ -193,7 +193,17 @@ def scenario(res, flavour, ext, tmp, fault, case):
 
     path = os.path.join(tmp, f"net.{ext}")
     for f in os.listdir(tmp):
-        os.remove(os.path.join(tmp, f))
+        full = os.path.join(tmp, f)
+        if os.path.isdir(full) and not os.path.islink(full):
+            shutil.rmtree(full)
+        else:
+            os.remove(full)
+    if case.get("layout") == "symlink-file":
+        # the configured path is a symbolic link to a file in another directory
+        os.mkdir(os.path.join(tmp, "real"))
+        os.mkdir(os.path.join(tmp, "link"))
+        path = os.path.join(tmp, "link", f"net.{ext}")
+        os.symlink(os.path.join("..", "real", f"net.{ext}"), path)
     pg = PGateway(flavour, VERSION, path)
     try:
         pg.start()
@@ -313,9 +323,13 @@ def run_oserror(job, res):
                     finally:
                         sh.uninstall()
                     return {"fired": lambda: sh.fired, "failed": len(SAVE_EXC) > n0}
-                for variant in ({}, {"quiet": True}, {"quiet": True, "stop_directly": True}, {"shrink": True}):
+                for variant in ({}, {"quiet": True}, {"quiet": True, "stop_directly": True}, {"shrink": True}, {"layout": "symlink-file"}):
                     if variant and err != errno.EIO:
                         continue
+                    if variant.get("layout") and ops[k][0] == "write":
+                        continue
+                    if variant.get("layout"):
+                        res.count("symlinked_file_variants")
                     res.evals += 1
                     scenario(res, flavour, ext, tmp, fault, dict(case, **variant))
                     res.nontrivial((flavour, ext, "oserror", k, err, tuple(variant)))
